@@ -1,6 +1,7 @@
 """Configuration of ./check C01 (see pylib/props.py)."""
 CFG = dict(
         coq=["props/C01.vo"],
+        tie=["gen/Tie_C01.vo"],
         model_vo=["model/Sorter.vo", "model/SorterSpec.vo", "model/Ingest.vo", "model/IngestSpec.vo"],
         extract="Ex_C01",
         level_text="Theorem C01_lossless: for every header, every key choice among the columns (subset, order, none), all rows "
@@ -8,13 +9,14 @@ CFG = dict(
                    "permutation and every arrival order of the saved blocks, the transliterated ingest succeeds, writes the "
                    "table object last, stores the header and key, and the rows read back have strictly ascending keys, are "
                    "input rows cell for cell, cover every input key, and are a permutation of the input when keys are unique; "
-                   "C01_overlimit_refused: a longer cell gives an error and no write at all. Model tied to ingest.IngestTable, "
+                   "C01_overlimit_refused: a longer cell gives an error and no write at all; C01_bad_key_refused: a key naming a "
+                   "column twice or an unknown column is refused. Model tied to ingest.IngestTable, "
                    "wrgl commit and wrgl export by differential execution with object read-back.",
         level_note="Theorems are about coq/model/{Sorter,Ingest}.v (hand transliteration); rows are lists of cells: the CSV "
                    "reader/writer (encoding/csv) and the byte codecs (C06) are exercised by the harness, not modelled; "
                    "tie = correspondence harness.",
-        rule="witnesses of the repaired defects (empty key, rows > 64KiB, 65535/65536/70000-byte cells, unknown key, duplicate "
-             "at a block boundary); exhaustive: all tables of <=3 rows x 1 column and <=2 (quick) / <=3 (thorough) rows x 2 "
+        rule="witnesses of the repaired defects (empty key, rows > 64KiB, 65535/65536/70000-byte cells, unknown key, key column "
+             "named twice, renamed empty header names, duplicate at a block boundary); exhaustive: all tables of <=3 rows x 1 column and <=2 (quick) / <=3 (thorough) rows x 2 "
              "columns over cells {'',a,b} x every key choice x run sizes 1/17/huge; random: 0..800 rows x 1..6 columns, cells "
              "from an alphabet with quotes, delimiters, CR, LF, NUL, non-UTF-8, spaces, key subsets/orders incl. none, empty "
              "and odd header names, duplicate keys inserted at random places and at rows 253..256, delimiters , ; tab |, run "
